@@ -170,6 +170,10 @@ func vxH17Create(dotu bool, class int, faults int, namelen int) {
 	defer vxCheckErrno(rc, failed, dotu) // last, so that a wrong errno does not hide the other checks of this path
 	if rc.Type == Rerror {
 		vxObserve("mutations-before-error", fs.mutationsDone())
+		if len(sig) > 0 {
+			vxObserve("@first-call", sig[0].op)
+			vxObserve("@last-call", sig[len(sig)-1].op)
+		}
 		vxAssert(vxSameTree(before, after), "create-"+vxCreateClass[class]+"-Rerror-implies-tree-unchanged")
 		vxAssert(uf.path == vxRoot+"/d", "Rerror-implies-fid-path-unchanged")
 		vxAssert(uf.file == nil, "Rerror-implies-fid-not-opened")
